@@ -151,3 +151,67 @@ Section Inside.
           -- rewrite Hmarg. cbn [marg_acc]. rewrite Hfx, Hb, Hden, updf_same, Hm. reflexivity.
           -- rewrite Hmarg. exact Hm. Qed.
 End Inside.
+
+(** the statement used by props/C10.v and props/C11.v *)
+Theorem inside_equation : forall (P : Space) (G : nat) lik sfrac fixed prior std gs st st',
+  inside_order fixed [] gs ->
+  inside_groups P G lik sfrac fixed prior std st gs = Some st' ->
+  (forall g, In g gs -> fixed (fst g) = false ->
+     exists val, fold_msgs P G lik sfrac fixed (i_ins P st') (prior (fst g)) (snd g) = Some val /\
+       let d := if std then npmax P val else s_id P in
+       i_ins P st' (fst g) = Some (vratio P val d) /\ i_den P st' (fst g) = Some d) /\
+  i_marg P st' = (if std then marg_acc P fixed (i_den P st') (i_marg P st) gs else i_marg P st).
+Proof. intros P G lik sfrac fixed prior std gs st st' Hord H.
+  destruct (inside_groups_spec P G lik sfrac fixed prior std gs [] st st' Hord H) as (_ & Heq & Hm).
+  split; [exact Heq|exact Hm]. Qed.
+
+(** ** The equation system has one solution (C11): induction along any valid order *)
+Section Unique.
+  Variable P : Space.
+  Variable G : nat.
+  Variable lik : nat -> nat -> nat -> S P.
+  Variable sfrac : nat -> S P.
+  Variable fixed : nat -> bool.
+  Variable prior : nat -> list (S P).
+  Variable std : bool.
+
+  Notation group_eq := (group_eq P G lik sfrac fixed prior std).
+
+  Lemma inside_unique_from : forall gs seen ins1 den1 ins2 den2,
+    inside_order fixed seen gs ->
+    (forall u, In u seen -> ins1 u = ins2 u) ->
+    (forall g, In g gs -> group_eq ins1 den1 g) ->
+    (forall g, In g gs -> group_eq ins2 den2 g) ->
+    forall g, In g gs -> fixed (fst g) = false ->
+      ins1 (fst g) = ins2 (fst g) /\ den1 (fst g) = den2 (fst g).
+  Proof. induction gs as [|[p es] r IH]; intros seen ins1 den1 ins2 den2 Hord Hseen H1 H2 g Hg Hfx; [destruct Hg|].
+    destruct Hord as (Hn & Hkids & Hord).
+    assert (Hp : fixed p = false -> ins1 p = ins2 p /\ den1 p = den2 p).
+    { intro Hfp. destruct (H1 (p, es) (or_introl eq_refl) Hfp) as (v1 & Hv1 & Hi1 & Hd1).
+      destruct (H2 (p, es) (or_introl eq_refl) Hfp) as (v2 & Hv2 & Hi2 & Hd2). cbn [fst snd] in *.
+      assert (E : v1 = v2).
+      { rewrite (fold_msgs_ext P G lik sfrac fixed ins1 ins2) in Hv1; [congruence|].
+        intros e He Hfc. apply Hseen. destruct (Hkids e He); [congruence|assumption]. }
+      subst v2. rewrite Hi1, Hi2, Hd1, Hd2. auto. }
+    destruct Hg as [<-|Hg]; [exact (Hp Hfx)|].
+    apply (IH (if fixed p then seen else p :: seen) ins1 den1 ins2 den2 Hord); try assumption.
+    - intros u Hu. destruct (fixed p) eqn:Hfp; [now apply Hseen|].
+      destruct Hu as [<-|Hu]; [now apply Hp|now apply Hseen].
+    - intros; apply H1; now right.
+    - intros; apply H2; now right. Qed.
+
+  (** any two valid orders of the same parent groups give the same inside values,
+      denominators (hence the same marginal likelihood factors) *)
+  Theorem inside_order_independent gs1 gs2 st1 st2 s1 s2 :
+    inside_order fixed [] gs1 -> inside_order fixed [] gs2 ->
+    (forall g, In g gs1 <-> In g gs2) ->
+    inside_groups P G lik sfrac fixed prior std s1 gs1 = Some st1 ->
+    inside_groups P G lik sfrac fixed prior std s2 gs2 = Some st2 ->
+    forall g, In g gs1 -> fixed (fst g) = false ->
+      i_ins P st1 (fst g) = i_ins P st2 (fst g) /\ i_den P st1 (fst g) = i_den P st2 (fst g).
+  Proof. intros Ho1 Ho2 Hsame H1 H2.
+    destruct (inside_groups_spec P G lik sfrac fixed prior std gs1 [] s1 st1 Ho1 H1) as (_ & E1 & _).
+    destruct (inside_groups_spec P G lik sfrac fixed prior std gs2 [] s2 st2 Ho2 H2) as (_ & E2 & _).
+    apply (inside_unique_from gs1 [] _ _ _ _ Ho1); [intros ? []|exact E1|].
+    intros g Hg. apply E2. now apply Hsame. Qed.
+End Unique.
